@@ -89,7 +89,7 @@ func init() {
 		Title:    "equivalent spellings of a license are interchangeable everywhere",
 		Explorer: "E1 exhaustive id x spelling-pair x context enumeration, differential oracle (same code, two spellings)",
 		Rule: "for every listed id X and both pairs (X+, X-or-later), (X, X-only) whose members are both valid: substituted as the expression term and as the allowed entry against every spelling of every listed id sharing X's name stem plus MIT, Zlib, LicenseRef-a, with and without WITH Bison-exception-2.2 on either side, " +
-			"and at every leaf of every tree <= 2 (thorough 3) leaves over {MIT, LicenseRef-a} in three renderings; state = one context with both spellings, 6 transitions (2x ValidateLicenses expr, list; Satisfies); non-trivial = contexts in which the Satisfies verdict is 'true' or whose partner belongs to X's table family",
+			"and at every leaf of every tree <= 2 (thorough 3) leaves over {MIT, LicenseRef-a, GPL-2.0-or-later, LicenseRef-x-or-later} in four renderings; state = one context with both spellings, 6 transitions (2x ValidateLicenses expr, list; Satisfies); non-trivial = contexts in which the Satisfies verdict is 'true' or whose partner belongs to X's table family",
 		Assumptions: []string{"'both spellings valid' is taken from the implementation's own ValidateLicenses verdict; for active X invalidity of any of the four spellings is itself a violation", "deprecated ids whose suffixed form is invalid are skipped (status left open by the properties)"},
 		Run:         c08Run,
 	})
@@ -122,8 +122,10 @@ func c08Run(c *Ctx) {
 	if c.Thorough() {
 		maxLeaves = 3
 	}
-	atoms := []string{hole, "MIT", "LicenseRef-a"}
-	atomsP := []string{"(" + hole + ")", "(MIT)", "(LicenseRef-a)"}
+	// the other leaves include a listed -or-later id and a reference whose name ends in -or-later:
+	// text the scanner must leave alone while it rewrites the spelling under test
+	atoms := []string{hole, "MIT", "LicenseRef-a", "GPL-2.0-or-later", "LicenseRef-x-or-later"}
+	atomsP := []string{"(" + hole + ")", "(MIT)", "(LicenseRef-a)", "(GPL-2.0-or-later)", "(LicenseRef-x-or-later)"}
 	trees := TreesUpTo(maxLeaves, len(atoms))
 	var treeTemplates []string
 	seenT := map[string]bool{}
